@@ -212,7 +212,66 @@ theorem Sat.emit {enc : Option EncState} {bs : Bytes}
   | some e => exact hsome e rfl
   | none => exact Sat.io_writeAll (hnone rfl) he
 
+/-- `emitFinish` (M2): as `emit`, with the destructor's retry on the error path. -/
+theorem Sat.emitFinish {m : Method} {enc : Option EncState} {bs : Bytes}
+    {k : Option EncState → M (Except ZErr β × WState)}
+    (hsome : ∀ e, enc = some e → Sat (k (some { e with buffer := e.buffer ++ bs })) fa d Q)
+    (hnone : enc = none → ∀ d', d'.pos = d.pos + bs.length → Sat (k none) fa d' Q)
+    (he : fa ≠ none → ∀ e d', Q (.error e, s) d') : Sat (emitFinish s m enc bs k) fa d Q := by
+  unfold Model.emitFinish
+  cases enc with
+  | some e => exact hsome e rfl
+  | none =>
+    dsimp only
+    have h1 := MSat.writeAll bs fa d
+    unfold MSat at h1
+    unfold Sat
+    rw [M.bind_apply, M.attempt_apply]
+    cases heq : M.writeAll bs fa d with
+    | mk o d' =>
+      rw [heq] at h1
+      cases o with
+      | ok a =>
+        dsimp only at h1 ⊢
+        have := hnone rfl d' h1
+        unfold Sat at this
+        exact this
+      | panic s' => exact h1
+      | err e =>
+        dsimp only at h1 ⊢
+        by_cases hm : (m == .deflated || m == .bzip2) = true
+        · rw [if_pos hm, M.bind_apply, M.attempt_apply]
+          have h2 := MSat.writeAll bs fa d'
+          unfold MSat at h2
+          cases heq2 : M.writeAll bs fa d' with
+          | mk o2 d2 =>
+            rw [heq2] at h2
+            cases o2 with
+            | ok a2 => exact he h1 e d2
+            | err e2 => exact he h1 e d2
+            | panic s2 => exact h2
+        · rw [if_neg hm]
+          exact he h1 e d'
+
 end
+
+/-- **On a fault-free sink `emitFinish` is `emit`** (the retry only exists on the error path). -/
+theorem emitFinish_none {β} (s : WState) (m : Method) (enc : Option EncState) (bs : Bytes)
+    (k : Option EncState → M (Except ZErr β × WState)) (d : Dev) :
+    emitFinish s m enc bs k none d = emit s enc bs k none d := by
+  unfold emitFinish emit
+  cases enc with
+  | some e => rfl
+  | none =>
+    dsimp only
+    unfold Model.io
+    rw [M.bind_apply, M.bind_apply, M.attempt_apply]
+    have h1 := MSat.writeAll bs none d
+    unfold MSat at h1
+    split at h1
+    · rfl
+    · exact absurd rfl h1
+    · rfl
 
 /-! ### `setLast` -/
 
@@ -328,7 +387,7 @@ theorem switchTo_sat (ext : WExt) (c : Method) (l : Option Int) (s : WState) (fa
     split
     · apply Sat.pure
       exact ⟨.compressor m lv enc pending, by simp_all [Inner.currentCompression]⟩
-    · apply Sat.emit
+    · apply Sat.emitFinish
       · intro e he
         subst he
         cases c <;> simp only [levelRange]
